@@ -15,14 +15,31 @@ import (
 type hcase struct {
 	ops  []opT
 	outs []string
+	ml   []int          // step -> the model's index of the loader the operation names (the type-set loaders that the
+	//                      resolution of a type set creates are loaders of the model too)
+	adds map[int]string // step -> the Gallina term of an AddTypes operation (the types as they were parsed)
 }
 
 func (c hcase) gallina() string {
 	ops := make([]string, len(c.ops))
+	outs := make([]string, len(c.ops))
 	for i, o := range c.ops {
-		ops[i] = o.gallina()
+		switch {
+		case o.Kind == "AddTypes":
+			ops[i] = c.adds[i]
+			outs[i] = c.outs[i]
+		case strings.HasPrefix(c.outs[i], "RNew "):
+			// the new loader's index in the model: the same shift as for an index out of range
+			var n int
+			_, _ = fmt.Sscanf(c.outs[i], "RNew %d", &n)
+			ops[i] = "XOp (" + o.gallina(c.ml[i]) + ")"
+			outs[i] = fmt.Sprintf("XR (RNew %d)", n+c.ml[len(c.ops)+i])
+		default:
+			ops[i] = "XOp (" + o.gallina(c.ml[i]) + ")"
+			outs[i] = "XR (" + c.outs[i] + ")"
+		}
 	}
-	return "(" + lib.GList(ops, "op") + ",\n    " + lib.GList(c.outs, "out") + ")"
+	return "(" + lib.GList(ops, "xop") + ",\n    " + lib.GList(outs, "xout") + ")"
 }
 
 // runHistory runs a history on the implementation (fresh loaders) and on the reference specification;
@@ -32,14 +49,23 @@ func runHistory(c px.Context, ops []opT) (hc hcase, bad int, want string) {
 	r := newRefWorld()
 	bad = -1
 	hc.ops = ops
+	hc.adds = map[int]string{}
+	hc.ml = make([]int, 2*len(ops)) // second half: the number of hidden loaders before the step
 	for i, o := range ops {
+		hc.ml[i], hc.ml[len(ops)+i] = w.ml(o.L), w.hidden
 		got := w.apply(o)
 		hc.outs = append(hc.outs, got)
+		if o.Kind == "AddTypes" {
+			hc.adds[i] = w.lastAddGallina(hc.ml[i])
+			w.hidden += w.lastHidden
+		}
 		if bad >= 0 {
 			continue
 		}
 		var exp string
-		if o.L >= len(r.nodes) && o.Kind != "NewDep" {
+		if o.Kind == "AddTypes" {
+			exp = r.applyAdd(o, w.lastAdd)
+		} else if o.L >= len(r.nodes) && o.Kind != "NewDep" {
 			exp = "RBadLoader"
 		} else {
 			exp = r.apply(o)
@@ -53,7 +79,7 @@ func runHistory(c px.Context, ops []opT) (hc hcase, bad int, want string) {
 }
 
 func newCases() *lib.CasesFile {
-	return &lib.CasesFile{Imports: []string{"Model.Base", "Model.Loader", "Corr.CorrC12"}, Typ: "list op * list out",
+	return &lib.CasesFile{Imports: []string{"Model.Base", "Model.Loader", "Model.LoaderAdd", "Corr.CorrC12"}, Typ: "list xop * list xout",
 		Prelude:     gallinaPrelude(),
 		Obligations: map[string]string{"loader_model": "loader_mismatches cfg cases", "loader_spec": "loader_spec_violations cfg cases"}}
 }
@@ -88,6 +114,10 @@ func nontrivial(hc hcase) bool {
 	for i, o := range hc.ops {
 		out := hc.outs[i]
 		switch o.Kind {
+		case "AddTypes":
+			if strings.HasPrefix(out, "XA (AErr") {
+				return true
+			}
 		case "Define", "AddType":
 			if strings.HasPrefix(out, "RErr") || (strings.HasPrefix(out, "RDefined") && out != "RDefined "+gVal(o.V)) {
 				return true
@@ -138,7 +168,7 @@ func (r *runner) check(ops []opT, cf *lib.CasesFile, toCoq bool, family string) 
 				strings.Join(opsText(small), "; ")),
 			Input: input(small)})
 		if r.nviol <= 20 {
-			cf.Add(hcase{small, shc.outs[:len(small)]}.gallina(), input(small))
+			cf.Add(shc.gallina(), input(small))
 		}
 	}
 	if toCoq {
@@ -164,6 +194,7 @@ func main() {
 	}
 	pcore.Do(func(c px.Context) {
 		setupUniverse(c)
+		setupAddDecls(c)
 		r := &runner{cfg: cfg, res: res, c: c}
 		if cfg.Replay != "" {
 			r.replay()
